@@ -140,6 +140,10 @@ C07Step == IsStep =>
     /\ post.view >= pre.view /\ post.htc >= pre.htc /\ post.cview >= pre.cview              \* never decrease
     /\ ViewOfBlock(reg', post.hqc) >= ViewOfBlock(reg', pre.hqc) /\ post.hqcv >= pre.hqcv
     /\ post.hqcv = ViewOfBlock(reg', post.hqc)                                               \* the label is the certified block's view
+    \* the certified state moves only on evidence too: a higher "highest QC" names a block a quorum really voted for,
+    \* a higher "highest TC" a view a quorum really signed timeouts for
+    /\ (post.hqc # pre.hqc) => (post.hqc \in DOMAIN reg' /\ Cardinality(Backers(votesFor', post.hqc)) >= cfg.q)
+    /\ (post.htc > pre.htc) => (post.htc \in DOMAIN tsigners' /\ Cardinality(tsigners'[post.htc] \cup cfg.byz) >= cfg.q)
     /\ Len(Line.vcs) = post.view - pre.view                                                  \* every increment is signalled ...
     /\ \A i \in 1..Len(Line.vcs) : Line.vcs[i][1] = pre.view + i                              \* ... one view at a time
     /\ \A w \in pre.view..(post.view - 1) : Evidence(reg', votesFor', tsigners', w)            \* only on evidence
